@@ -251,6 +251,119 @@ fn emit_rta(ctx: &mut Ctx, policy: &str, tua: &Value, others: &[Value], b: u64, 
     Some(inp)
 }
 
+/// The dedicated-processor scenarios of the repository's own unit tests (src/*/tests.rs) with the values pinned
+/// there: a third, independent oracle -- the trace specification must evaluate its defining equations to the pinned
+/// value (check "spec_reproduces_pinned_suite_value") and the library must agree with it as for any other input.
+/// Scenarios with horizons of 10^5 and more (SchedCAT / Audsley task sets) are beyond TLC's reach and are left out.
+fn suite_task(c: u64, t: u64, dl: u64, seg: u64, last: u64) -> Value {
+    json!({"a": {"k": "sporadic", "T": t, "J": 0}, "c": {"k": "scalar", "c": c}, "C": c, "D": dl, "seg": seg, "last": last})
+}
+
+fn emit_suite(ctx: &mut Ctx, policy: &str, tua: &Value, others: &[Value], b: u64, lim: u64, expect: Option<u64>) {
+    let h = lim + 10;
+    let wd = ctx.watchdog_ms;
+    let tua_t = match with_table(tua, h, wd) {
+        Some(t) => t,
+        None => return,
+    };
+    let mut os = vec![];
+    for o in others {
+        match with_table(o, h, wd) {
+            Some(t) => os.push(t),
+            None => return,
+        }
+    }
+    let mut inp = json!({"policy": policy, "lim": lim, "tua": tua_t, "others": os, "B": b, "tags": ["suite"],
+                         "expect": expect.map(|v| v as i64).unwrap_or(-1)});
+    if policy == "fifo" {
+        inp["container"] = json!("slice");
+        inp["tua"] = json!({"rbf": [0], "C": 0});
+    }
+    ctx.call("rta", inp, call_rta);
+}
+
+pub fn run_suite(ctx: &mut Ctx) {
+    let only = ctx.arg("--only").unwrap_or("all".into());
+    if only == "ros2" {
+        crate::drivers::ros2::run_suite(ctx);
+        return;
+    }
+    // fixed_priority/tests.rs: (wcet, period) in priority order; interference = higher-priority tasks
+    let fp_sets: Vec<(&str, u64, Vec<(u64, u64)>, Vec<Option<u64>>)> = vec![
+        ("fp_fp_rta_basic", 100, vec![(1, 4), (1, 5), (3, 9), (3, 18)], vec![Some(1), Some(2), Some(7), Some(18)]),
+        ("fp_fp_rta_lehoczky90_ex2", 1000, vec![(52, 100), (52, 140)], vec![Some(52), Some(156)]),
+        ("fp_fp_rta_lehoczky90_ex2_reversed", 1000, vec![(52, 140), (52, 100)], vec![Some(52), Some(108)]),
+        ("fp_fp_rta_lehoczky90_ex3", 1000, vec![(26, 70), (62, 100)], vec![Some(26), Some(118)]),
+        ("fp_fp_rta_overload", 100, vec![(1, 2), (1, 3), (3, 9), (3, 18)], vec![Some(1), Some(2), None, None]),
+    ];
+    for (_name, lim, ps, exp) in fp_sets.iter() {
+        let ts: Vec<Value> = ps.iter().map(|(c, t)| suite_task(*c, *t, *t, *c, *c)).collect();
+        for i in 0..ts.len() {
+            emit_suite(ctx, "fp_p", &ts[i], &ts[0..i], 0, *lim, exp[i]);
+        }
+    }
+    // fully non-preemptive: blocking = largest lower-priority WCET - 1
+    for (lim, ps, exp) in [
+        (1000u64, vec![(20u64, 70u64), (20, 80), (35, 200)], vec![Some(54u64), Some(74), Some(75)]),
+        (300, vec![(10, 20), (20, 50)], vec![Some(39), Some(79)]), // fp_np_rta_overload, blocking of the third task kept
+    ] {
+        let all: Vec<(u64, u64)> = if lim == 300 { vec![(10, 20), (20, 50), (30, 200)] } else { ps.clone() };
+        let ts: Vec<Value> = all.iter().map(|(c, t)| suite_task(*c, *t, *t, *c, *c)).collect();
+        for i in 0..ps.len() {
+            let b = all[i + 1..].iter().map(|(c, _)| *c).max().unwrap_or(0).saturating_sub(1);
+            emit_suite(ctx, "fp_np", &ts[i], &ts[0..i], b, lim, exp[i]);
+        }
+    }
+    // limited-preemptive and floating non-preemptive FP: (4,12),(6,20),(8,40) with segments 2,3,4 / last segments 2,3,3
+    let ps = [(4u64, 12u64), (6, 20), (8, 40)];
+    let seg = [2u64, 3, 4];
+    let last = [2u64, 3, 3];
+    let ts: Vec<Value> = (0..3).map(|i| suite_task(ps[i].0, ps[i].1, ps[i].1, seg[i], last[i])).collect();
+    for (i, e) in [7u64, 13, 22].iter().enumerate() {
+        let b = seg[i + 1..].iter().copied().max().unwrap_or(0).saturating_sub(1);
+        emit_suite(ctx, "fp_lp", &ts[i], &ts[0..i], b, 100, Some(*e));
+    }
+    for (i, e) in [7u64, 17, 32].iter().enumerate() {
+        let b = seg[i + 1..].iter().copied().max().unwrap_or(0).saturating_sub(1);
+        emit_suite(ctx, "fp_fnp", &ts[i], &ts[0..i], b, 100, Some(*e));
+    }
+    // fp_fnps_rta_overload: (4,12),(6,20),(8,30),(8,40), segments 2,3,3,4 -> 7, 17, 35, none
+    let ps4 = [(4u64, 12u64), (6, 20), (8, 30), (8, 40)];
+    let seg4 = [2u64, 3, 3, 4];
+    let ts4: Vec<Value> = (0..4).map(|i| suite_task(ps4[i].0, ps4[i].1, ps4[i].1, seg4[i], 1)).collect();
+    for (i, e) in [Some(7u64), Some(17), Some(35)].iter().enumerate() {
+        let b = seg4[i + 1..].iter().copied().max().unwrap_or(0).saturating_sub(1);
+        emit_suite(ctx, "fp_fnp", &ts4[i], &ts4[0..i], b, 300, *e);
+    }
+    // edf/tests.rs: every other task interferes
+    let edf = |ctx: &mut Ctx, policy: &str, lim: u64, ps: &[(u64, u64)], dls: &[u64], seg: &[u64], last: &[u64], exp: &[Option<u64>]| {
+        let ts: Vec<Value> = (0..ps.len()).map(|i| suite_task(ps[i].0, ps[i].1, dls[i], seg[i], last[i])).collect();
+        for i in 0..ts.len() {
+            let others: Vec<Value> = (0..ts.len()).filter(|j| *j != i).map(|j| ts[j].clone()).collect();
+            emit_suite(ctx, policy, &ts[i], &others, 0, lim, exp[i]);
+        }
+    };
+    let p3 = [(79u64, 120u64), (11, 34), (1, 190)];
+    let c3 = [79u64, 11, 1];
+    edf(ctx, "edf_np", 1000, &p3, &[100, 100, 100], &c3, &c3, &[Some(91), Some(91), Some(91)]);
+    edf(ctx, "edf_np", 1000, &p3, &[50, 100, 120], &c3, &c3, &[Some(89), Some(90), Some(121)]);
+    edf(ctx, "edf_np", 1000, &[(5, 20), (10, 20)], &[29, 30], &[5, 10], &[5, 10], &[Some(14), Some(15)]);
+    edf(ctx, "edf_p", 1000, &p3, &[50, 100, 120], &[1, 1, 1], &[1, 1, 1], &[Some(79), Some(101), Some(121)]);
+    edf(ctx, "edf_p", 1000, &[(1, 5), (100, 1000), (2, 10), (5, 20), (10, 50)], &[5, 1000, 10, 45, 50], &[1; 5], &[1; 5],
+        &[Some(1), Some(694), Some(3), Some(22), Some(27)]);
+    let p = [(4u64, 12u64), (6, 20), (8, 40)];
+    edf(ctx, "edf_fnp", 100, &p, &[25, 30, 40], &[2, 3, 4], &[1, 1, 1], &[Some(8), Some(13), Some(22)]);
+    edf(ctx, "edf_lp", 1000, &p, &[24, 35, 40], &[2, 3, 4], &[2, 3, 4], &[Some(7), Some(17), Some(22)]);
+    // fifo/tests.rs
+    let f1: Vec<Value> = p3.iter().map(|(c, t)| suite_task(*c, *t, *t, *c, *c)).collect();
+    emit_suite(ctx, "fifo", &f1[0], &f1, 0, 1000, Some(91));
+    let f2: Vec<Value> = [(2u64, 4u64), (2, 8), (4, 12)].iter().map(|(c, t)| suite_task(*c, *t, *t, *c, *c)).collect();
+    emit_suite(ctx, "fifo", &f2[0], &f2, 0, 1000, None);
+    if only == "all" {
+        crate::drivers::ros2::run_suite(ctx);
+    }
+}
+
 pub fn run_rta(ctx: &mut Ctx) {
     let only: Option<Vec<String>> = ctx.arg("--policies").map(|p| p.split(',').map(|x| x.to_string()).collect());
     let wanted = |p: &str| only.as_ref().map(|o| o.iter().any(|x| x == p)).unwrap_or(true);
